@@ -85,7 +85,16 @@ def gen_float(rng, allow_nan=False, profile="mixed"):
         return b
 
 
+NO_DATA_BITS = f2b(-1e39)
+
+
 def gen_pt(rng, dim, profile="mixed", nan_xy=False):
+    if profile == "nom":
+        # finite coordinates, every measure = NO_DATA ("no measure")
+        c = gen_pt(rng, dim, "finite", nan_xy)
+        if dim >= 3:
+            c[-1] = NO_DATA_BITS
+        return c
     c = [gen_float(rng, nan_xy, profile), gen_float(rng, nan_xy, profile)]
     if dim == 4:
         c.append(gen_float(rng, True, profile))
